@@ -618,9 +618,11 @@ BRANCH_CLAUSE = "kron-pow-principal-branch"
 
 def kron_branch_violated(case, A):
     """the decidable domain predicate of the Kronecker rule of pow (Lean: MatFun.ArgSumOK, theorem C09_kron_pow_domain):
-    True iff the call is pow / sqrt / isqrt with a NON-INTEGER exponent on a Kronecker product and some eigenvalues a, b of
-    two different members have arg a + arg b outside (-pi, pi] (with a margin: a sum within 1e-6 of the boundary is not
-    decided here and does not get the clause)."""
+    True iff the call is pow / sqrt / isqrt with a NON-INTEGER exponent on a Kronecker product and some choice of one
+    non-zero eigenvalue PER MEMBER (all k members, not only pairs: the n-ary statement is C09_pow_kron_nary, the two-factor
+    one C09_kron_pow_domain) has its sum of arguments outside (-pi, pi] (with a margin: a sum within 1e-6 of the boundary
+    is not decided here and does not get the clause).  This predicate is evaluated in PYTHON on numpy eigenvalues of the
+    members (the driver does not decide this clause); the generated spectra keep 0.12 rad distance from the cut."""
     fn = case["fn"]
     if fn not in ("pow", "sqrt", "isqrt"):
         return False
@@ -1045,7 +1047,8 @@ def kron_zero_column_risk(e, c, cls):
     """the members of a Kronecker product act on RESHAPED slices of the operand: an iterative member (Krylov operator, or
     inv through CG / GMRES) can be handed a ZERO column -- by a singular structured co-member (f(0) = 0 for positive powers),
     or by the reshape of an operand with zero entries -- and 0/0 in the start-vector normalisation gives NaN (the IEEE-only
-    behaviour this harness keeps out of all streams, see int_operand; recorded for C07 as krylov-blockdiag-zero-probe).
+    behaviour this harness keeps out of the CONTRACT streams, see int_operand; recorded for C09 as krylov-zero-column -- the
+    labelled stream gen_zero_column_cases generates it on purpose -- and for C07 as krylov-blockdiag-zero-probe).
     Found by the thorough tier: pow(Kronecker(Diagonal([0, 1.7]), SelfAdjoint(Dense)), 10, Lanczos(2)) and
     pow(Kronecker(T(Diagonal), T(Diagonal)), -1, Arnoldi(4)) with an integer operand."""
     y = e
@@ -1507,8 +1510,10 @@ def krylov_zero_column(case, plan, A, X):
 
 def gen_zero_column_cases(ctx, rng, nprng, n_cases):
     """LABELLED DEFECT stream (not part of the contract streams, which avoid the situation: `kron_zero_column_risk`): Kronecker
-    products whose Krylov member is handed a zero column.  Every case must be explained by `krylov_zero_column` and fail by
-    NaN / LinAlgError (then KNOWN-FINDING krylov-zero-column), or be right."""
+    products whose Krylov member is handed a zero column.  A case that fails must fail by NaN / inf / LinAlgError AND the
+    DRIVER must list the clause for it (Lean `UnOp.zeroFibreClause` on plan and exact operand; Engine.zero_column) -- then
+    KNOWN-FINDING krylov-zero-column; the Python simulation `krylov_zero_column` is only the cross-check of the driver's
+    decision (Engine.cross_check).  Anything else must be right."""
     G = Gen9(rng, nprng)
     cases = []
     for t in range(n_cases):
@@ -2180,7 +2185,9 @@ def run(ctx):
                    "BRANCH stream (cls branch): Kronecker products of 2-3 complex Diagonal / normal Dense factors (size <= 12) with eigenvalue arguments in "
                    "{0, +-0.3, +-0.55, +-0.8, +-0.92} pi, sqrt / isqrt / pow(5/2, -1/2, 1/2, -2, 10), 35 % inside the domain of the Kronecker rule, + 4 exact witnesses; "
                    "KRYLOV-EXACT stream (cls krylov-exact): integer Dense leaves 3-6 (symmetric tridiagonal+ / triangular, eigenvalue gaps >= 0.4, cond V <= 30), alone or in "
-                   "a BlockDiag, cube / x^2+1 / x**10 with Lanczos(n, 1e-12) / Arnoldi(n, 1e-12), integer operand: real vs exact Krylov model vs exact spec")
+                   "a BlockDiag, cube / x^2+1 / x**10 with Lanczos(n, 1e-12) / Arnoldi(n, 1e-12), integer operand: real vs exact Krylov model vs exact spec; "
+                   "DEFECT-ZERO-COLUMN stream (cls zero-column, labelled defect stream, not a contract stream): Kronecker(Diagonal with a zero entry, SelfAdjoint PD Dense leaf) "
+                   "or Kronecker(leaf, Diagonal) with an operand whose reshaped slice vanishes, pow 10 / pow 5/2 / sqrt, Lanczos(k, 1e-12) / Arnoldi(k, 1e-12)")
     cov["provisional_known"] = PROVISIONAL_KNOWN
     cov["trusted_base_extra"] = [
         "numpy.linalg eigh/eig/inv as the parameters of the base cases when the plan is evaluated in float64 (harness/props/c09.py eval_plan); scipy.linalg expm/logm/sqrtm/fractional_matrix_power as the numerical specification",
